@@ -408,18 +408,23 @@ def main(run):
     rename_file_check(run, d)
     shutil.rmtree(d, ignore_errors=True)
     run.add("evaluations", len(files))
-    path = run.sub("indent.json")
-    with open(path, "w") as f:
-        json.dump({"files": files, "maxpasses": maxpasses}, f)
-    res = run_tlc("MC_Indent", "MC_Indent.cfg", run, env={"INDENT_DATA": path}, workers=16, timeout=3000, tag="indent")
-    os.unlink(path)
-    if res.violated or not res.ok:
-        raise MachineryFailure("MC_Indent: %s\n%s" % (res.violated, (res.error or res.out[-2500:])[:3000]))
-    run.add("states", res.distinct)
-    run.add("transitions", res.generated)
     bad = set()
     design = {}
-    for v in extract_tuples(res.out, "D-|R-|P-"):
+    found = []
+    chunk = 1500  # one TLC run per 1500 files (a single run over a thorough tier's 25 000 files did not finish in an hour)
+    for b0 in range(0, len(files), chunk):
+        path = run.sub("indent_%d.json" % b0)
+        with open(path, "w") as f:
+            json.dump({"files": files[b0 : b0 + chunk], "maxpasses": maxpasses}, f)
+        res = run_tlc("MC_Indent", "MC_Indent.cfg", run, env={"INDENT_DATA": path}, workers=16, timeout=3000, tag="indent%d" % b0)
+        os.unlink(path)
+        if res.violated or not res.ok:
+            raise MachineryFailure("MC_Indent: %s\n%s" % (res.violated, (res.error or res.out[-2500:])[:3000]))
+        run.add("states", res.distinct)
+        run.add("transitions", res.generated)
+        for v in extract_tuples(res.out, "D-|R-|P-"):
+            found.append([v[0], v[1] + b0, v[2], v[3]])
+    for v in found:
         tag, t, a, b = v[0], v[1], v[2], v[3]
         if tag.startswith("D-"):
             design[tag] = design.get(tag, 0) + 1
